@@ -171,8 +171,13 @@ def step (st : St) (line : String) : St × List String :=
         | .error _ => (st, ["fcheck n/a"])
         | .ok l =>
           let (dops, rw) := dedup l.ops
-          let (res, sites) := fuseWithSites dops (l.privRows.toList.map (resolve rw))
-          (st, [s!"fcheck {fusionCheckReport dops.toList res.toList sites}"])
+          let inputs := l.privRows.toList.map (resolve rw)
+          let (res, sites) := fuseWithSites dops inputs
+          -- extra tokens (stripped by the plug-in before the line diff): `hyp` = hypothesis
+          -- `fuseInputOk` of the total theorem `P3R.C03.fuse_passes_check` on the input of the
+          -- fusion pass, `lhyp` = the same on the lowering's output (`dedup_preserves_shape`)
+          let b (x : Bool) : Nat := if x then 1 else 0
+          (st, [s!"fcheck {fusionCheckReport dops.toList res.toList sites} hyp={b (fuseInputOk dops inputs)} lhyp={b (fuseInputOk l.ops inputs)}"])
       | "prep", [] =>
         match st.c with
         | none => (st, ["bad-op"])
